@@ -204,6 +204,7 @@ type nhRegularSM struct{ *nhSM }
 
 func (s *nhRegularSM) Update(e sm.Entry) (sm.Result, error) {
 	s.enter("Update", nhEv{"idx": []uint64{e.Index}, "ids": []int{nhCmdID(e.Cmd)}})
+	s.c.rec.emit("Apply", nhEv{"h": s.h.id, "shard": s.shard, "last": e.Index})
 	s.jitter(300)
 	r := s.apply(e)
 	s.exit("Update", nil)
@@ -271,6 +272,9 @@ func (s *nhConcurrentSM) Update(es []sm.Entry) ([]sm.Entry, error) {
 		ids = append(ids, nhCmdID(e.Cmd))
 	}
 	s.enter("Update", nhEv{"idx": idx, "ids": ids})
+	if len(idx) > 0 {
+		s.c.rec.emit("Apply", nhEv{"h": s.h.id, "shard": s.shard, "last": idx[len(idx)-1]})
+	}
 	s.jitter(300)
 	for i := range es {
 		es[i].Result = s.apply(es[i])
@@ -381,6 +385,9 @@ func (s *nhOnDiskSM) Update(es []sm.Entry) ([]sm.Entry, error) {
 		ids = append(ids, nhCmdID(e.Cmd))
 	}
 	s.enter("Update", nhEv{"idx": idx, "ids": ids})
+	if len(idx) > 0 {
+		s.c.rec.emit("Apply", nhEv{"h": s.h.id, "shard": s.shard, "last": idx[len(idx)-1]})
+	}
 	s.jitter(300)
 	for i := range es {
 		es[i].Result = s.apply(es[i])
